@@ -127,6 +127,12 @@ func (m *RawManager) AddNode(node *RawNode) error {
 
 	m.mu.Lock()
 	defer m.mu.Unlock()
+	if _, found := m.lookup[node.id]; found {
+		// Another goroutine added a node with this ID since the check above:
+		// keep that one, the pool holds one node per ID.
+		_ = node.close()
+		return fmt.Errorf("config: node %d (%s) already exists", node.ID(), node.Address())
+	}
 	m.lookup[node.id] = node
 	// Keep the pool sorted by ID. The slice handed out by Nodes() is never
 	// modified afterwards: a new one is built for every added node.
